@@ -3746,9 +3746,9 @@ def spec_table_children_kept(ctx, make_exe):
     orig = summaries.summarize
     f = the(ctx.find(r"^table_to_render_tree::\{closure#0\}$"), "table_to_render_tree: the closure assembling the table")
     total = 0
-    shapes = [["B"], ["B", "B"], ["B", "X"], ["X", "B"], ["B", "X", "B"], ["X"], []]
+    shapes = [["B"], ["B", "B"], ["B", "X"], ["X", "B"], ["B", "X", "B"], ["X"], ["X", "X", "B"], []]
     for shape in shapes:
-        exe = make_exe(inline=[r"RenderNode::new_styled$"], loop_bound=8)
+        exe = make_exe(inline=[r"RenderNode::new_styled$", r"RenderNode::new$"], loop_bound=8)
         st = State()
         kids = []
         empties = {}
@@ -3760,23 +3760,45 @@ def spec_table_children_kept(ctx, make_exe):
                 empties[i] = exe.fresh("bool", "child%d.has_no_content" % i)
             kids.append(_agg(ctx, "RenderNode", info=info))
         env = VAgg("closure", None, [VOpaque("ComputedStyle", "computed")])
-        tables = []
+
+        def kid_index(exe_, st_, v):
+            while isinstance(v, VRef):
+                v = exe_.deref(st_, v)
+            for i, kd in enumerate(kids):
+                if v is kd:
+                    return i
+            # moved copies: identify by the content token
+            if isinstance(v, VAgg) and v.names and "info" in v.names:
+                inf = v.fields[v.names.index("info")]
+                if isinstance(inf, VAgg) and inf.variant == "Container" and isinstance(inf.fields[0], VVec) and inf.fields[0].elems:
+                    m_ = re.match(r"x(\d+)\.content$", getattr(inf.fields[0].elems[0], "name", ""))
+                    if m_:
+                        return int(m_.group(1))
+            return None
 
         def summ(exe_, st_, f_, bb_, callee, args, dest_ty):
             c = callee.strip()
-            if re.search(r"as Extend<RenderTableRow>>::extend::<", c):
+            if re.search(r"as Extend<.*>>::extend::<", c):
                 dst = args[0]
                 cur = dst
                 while isinstance(cur, VRef):
                     cur = exe_.deref(st_, cur)
                 add = args[1]
+                if isinstance(add, VAgg) and add.variant == "Some":
+                    add = VVec([add.fields[0]])
+                elif isinstance(add, VAgg) and add.variant == "None":
+                    add = VVec([])
                 if isinstance(cur, VVec) and isinstance(add, VVec):
                     exe_.write_ref(st_, dst, [], VVec(list(cur.elems) + list(add.elems)), None)
                     return [(st_, VUnit())]
                 return None
             if re.search(r"^RenderTable::new$", c):
-                tables.append((st_.clone(), args[0]))
                 return [(st_, VAgg("RenderTableModel", None, [args[0]]))]
+            if re.search(r"RenderNode::is_shallow_empty$", c):
+                i = kid_index(exe_, st_, args[0])
+                if i is not None and i in empties:
+                    return [(st_, empties[i])]
+                return None
             return orig(exe_, st_, f_, bb_, callee, args, dest_ty)
         summaries.summarize = summ
         try:
@@ -3790,25 +3812,46 @@ def spec_table_children_kept(ctx, make_exe):
         for i, k in enumerate(shape):
             if k == "B":
                 want_rows += ["g%dr0" % i, "g%dr1" % i]
+
+        def info_of(node):
+            return node.fields[node.names.index("info")] if isinstance(node, VAgg) and node.names and "info" in node.names else None
+
+        def rows_of(info):
+            if isinstance(info, VAgg) and info.variant == "Table":
+                t = info.fields[0]
+                rows = t.fields[0] if isinstance(t, VAgg) and t.path == "RenderTableModel" else None
+                if isinstance(rows, VVec):
+                    return [getattr(r, "name", "?") for r in rows.elems]
+            return None
         for (s2, ret) in outs:
             got_rows = None
-            if isinstance(ret, VAgg) and ret.variant == "Some":
-                node = ret.fields[0]
-                info = node.fields[node.names.index("info")] if isinstance(node, VAgg) and node.names else None
-                if isinstance(info, VAgg) and info.variant == "Table":
-                    t = info.fields[0]
-                    rows = t.fields[0] if isinstance(t, VAgg) and t.path == "RenderTableModel" else None
-                    if isinstance(rows, VVec):
-                        got_rows = [getattr(r, "name", "?") for r in rows.elems]
-            elif isinstance(ret, VAgg) and ret.variant == "None":
+            kept = []        # indices of non-row-group children present in the result, in order
+            table_last = True
+            if isinstance(ret, VAgg) and ret.variant == "None":
                 got_rows = []
+            elif isinstance(ret, VAgg) and ret.variant == "Some":
+                info = info_of(ret.fields[0])
+                got_rows = rows_of(info)
+                if got_rows is None and isinstance(info, VAgg) and info.variant == "Container" and isinstance(info.fields[0], VVec):
+                    got_rows = []
+                    elems = list(info.fields[0].elems)
+                    for pos, el in enumerate(elems):
+                        r_ = rows_of(info_of(el))
+                        if r_ is not None:
+                            got_rows = r_
+                            table_last = table_last and pos == len(elems) - 1
+                        else:
+                            i = kid_index(exe, s2, el)
+                            kept.append(i)
             if got_rows is None:
                 raise Inconclusive("table node not recovered")
             post(exe, s2, z3.BoolVal(got_rows == want_rows), f.name, "table %s: the rows of every row group are kept, in order (got %s)" % ("".join(shape) or "-", got_rows))
+            post(exe, s2, z3.BoolVal(table_last and kept == sorted(x for x in kept if x is not None) and None not in kept), f.name,
+                 "table %s: kept children stay in document order, before the table (%s)" % ("".join(shape), kept))
             for i, k in enumerate(shape):
                 if k == "X":
-                    # the child is not represented in the result at all
-                    post(exe, s2, empties[i].e, f.name, "table %s: a child that is not a row group is dropped only if it has no content" % "".join(shape))
+                    post(exe, s2, z3.BoolVal(i in kept) == z3.Not(empties[i].e), f.name,
+                         "table %s: a child that is not a row group is dropped only if it has no content" % "".join(shape))
     return {"function": f.name, "paths": total}
 
 # ----------------------------------------------------------------------------
